@@ -2,7 +2,7 @@
    workers finish.  Purity of the workers and bit-stability of the numeric libraries are assumptions exercised by the harness.
    Only statements; proofs are [exact <lemma>] into An/Winner_facts.v. *)
 From Coq Require Import ZArith Bool List Permutation.
-From PV Require Import An.Winner An.Winner_facts.
+From PV Require Import An.Winner An.Winner_facts gen.PoolSites_gen.
 Import ListNotations.
 
 (* ordered maps (fit_circuit, cnls, evaluate_log_F_ext) return the results in submission order whatever the schedule *)
@@ -10,6 +10,13 @@ Theorem C17_ordered_map_schedule_free :
   forall (A B : Type) (f : A -> B) jobs s1 s2, ordered_map f jobs s1 = ordered_map f jobs s2.
 Proof. reflexivity. Qed.
 Print Assumptions C17_ordered_map_schedule_free.
+
+(* ... and every fan-out of the entry points the property names (fit_circuit, Z-HIT reconstruction and offset adjustment, the
+   Kramers-Kronig CNLS and extension searches) collects its results through an ORDERED map: the table is regenerated from the source on
+   every run (tools/tr_pool.py: imap/map/starmap = submission order, imap_unordered = completion order). *)
+Theorem C17_pool_sites_are_ordered : forallb snd pool_sites = true /\ pool_sites <> [].
+Proof. split; [vm_compute; reflexivity|discriminate]. Qed.
+Print Assumptions C17_pool_sites_are_ordered.
 
 (* completion order + stable sort by pseudo chi-squared: with pairwise distinct keys the whole ranking, and so the winner,
    is a function of the set of candidates only *)
